@@ -36,5 +36,10 @@ func IsValidLabel[S ~string | ~[]byte](s S, allowDot bool) error {
 }
 
 func compileLabelRegex(re string) (*regexp.Regexp, error) {
+	// The pattern must be a regular expression on its own: wrapping alone would
+	// accept `a)|(?:b` as `^(?:a)|(?:b)$`, which is not anchored anymore.
+	if _, err := regexp.Compile(re); err != nil {
+		return nil, err
+	}
 	return regexp.Compile("^(?:" + re + ")$")
 }
